@@ -14,3 +14,5 @@ for p in "$@"; do
   echo "$p: ${out:-quiet}"
 done
 git -C $WT reset -q --hard; git -C $WT clean -fdq -e target
+# the run above regenerated lean/BumpVerif/Gen/* from the scratch worktree: bring them back to /repo's
+python3 tools/extract.py >/dev/null 2>&1
